@@ -77,6 +77,7 @@ func TestHTTPErrorClasses(t *testing.T) {
 				harness.Inconclusive(t, "socket: %v", err)
 			}
 			defer syscall.Close(fd)
+			syscall.SetsockoptInt(fd, syscall.SOL_SOCKET, syscall.SO_REUSEADDR, 1) // ports of connections in TIME_WAIT are fine
 			if err := syscall.Bind(fd, &syscall.SockaddrInet4{Addr: [4]byte{127, 0, 0, 1}}); err != nil {
 				t.Skip("no free local port at the moment (many connections of earlier cases are still in TIME_WAIT)")
 			}
